@@ -23,6 +23,11 @@ pub fn check_list(ctx: &mut Ctx, list: &[REntry], codec: u8, with_async: bool, r
     let spec = R::dir_encode(list);
     let dir = Directory::from(gen::to_lib_entries(list));
     let comp = gen::comp(codec);
+    // now and then a write that fails right before (a failing sink, a refused entry in the middle of a list)
+    if rng.chance(1, 16) {
+        crate::checks::common::failing_calls_before(rng, None);
+        ctx.count("writes_preceded_by_failed_calls");
+    }
     // serialise
     let mut out = Vec::new();
     match guard(|| dir.to_writer(&mut out, comp)) {
